@@ -766,8 +766,9 @@ var simKernels = []simKernel{
 
 const simTableHuge = 1e300
 
-// simTableAllowEmpty (argument table-empty=1 or OW_SIM_TABLE_EMPTY=1): also draw dimensioned models without any node.
-var simTableAllowEmpty = false
+// simTableAllowEmpty (default; table-empty=0 switches it off): also draw dimensioned models without any node
+// (ow-sim used to panic at start-up on them: fix commit 78b3069 in /repo).
+var simTableAllowEmpty = true
 
 // simRatingColumn draws the packed parameter column [nPts, inputAmount[nPts], proportion[nPts]] of one
 // RatingCurvePartition node: strictly increasing knots, proportions in [0,1]. The kernel panics (and a panic kills
@@ -1047,9 +1048,8 @@ func drawSimGraphOnce(r *Rng, tier string, pool []simKernel) *SimGraph {
 			m.Batches = append(m.Batches, cum)
 		}
 		if k.Table && cum == 0 && !simTableAllowEmpty {
-			// a dimensioned model type WITHOUT ANY NODE makes ow-sim panic at start-up (initDimensions → FindDimensions →
-			// Maximum() of an empty array: index out of range) — reported as an observation, see `table-empty=1`; here the
-			// model gets one node, or is left out when the node budget is used up
+			// (only with table-empty=0) a dimensioned model type without any node: the model gets one node, or is left out when
+			// the node budget is used up
 			if nodesLeft <= 0 {
 				continue
 			}
@@ -1229,7 +1229,7 @@ func genSim(c *Ctx) {
 	par := parseI(c.Arg("par", "6"))
 	c.Stats.Rule = "a DAG of ≤30 nodes over ≤5 catalogued kernels (bit-exact ones + the pow-using Gully pair; in ≈1/3 of the graphs a DIMENSIONED model, RatingCurvePartition, every node with its own table length 2…9, parameter table padded to the model-wide maximum, mostly only one generation reaching that maximum) partitioned into ≤6 generations (empty batches, fan-in with repeated destination input, fan-out, models without stored inputs, models without nodes), ≤60 links sorted by source generation, T≤16, random -outputs-for/-no-outputs-for/-inputs-for/-no-inputs-for, GOMAXPROCS∈{1,2,4,8,default}, schedule jitter; one run of the real ow-sim binary per case; non-trivial = ≥2 generations with ≥1 link; distinct by the full protocol line"
 	pool := simPool(c)
-	simTableAllowEmpty = c.Arg("table-empty", "0") == "1" || os.Getenv("OW_SIM_TABLE_EMPTY") == "1"
+	simTableAllowEmpty = c.Arg("table-empty", "1") == "1" && os.Getenv("OW_SIM_TABLE_EMPTY") != "0"
 	bodies := make([]string, n)
 	graphs := make([]*SimGraph, n)
 	for i := 0; i < n; i++ {
